@@ -249,8 +249,9 @@ def coq_eval_term(preamble, term, timeout=300, tag="term"):
 
 
 # ------------------------------------------------------------------ Rust harness
-def harness_prepare():
-    lock = os.path.join(HARNESS, "Cargo.lock")
+def harness_prepare(crate):
+    """each harness crate is its own workspace; it starts from /repo's lockfile (offline)"""
+    lock = os.path.join(HARNESS, crate, "Cargo.lock")
     src = os.path.join(REPO, "Cargo.lock")
     if not os.path.exists(lock):
         import shutil
@@ -258,13 +259,13 @@ def harness_prepare():
 
 
 def cargo_build(crate, features=None, timeout=3000, bin=None):
-    harness_prepare()
-    cmd = ["cargo", "build", "--offline", "-p", crate]
+    harness_prepare(crate)
+    cmd = ["cargo", "build", "--offline"]
     if bin:
         cmd += ["--bin", bin]
     if features:
         cmd += ["--features", ",".join(features)]
-    rc, out, dt = sh(cmd, cwd=HARNESS, timeout=timeout)
+    rc, out, dt = sh(cmd, cwd=os.path.join(HARNESS, crate), timeout=timeout)
     return rc == 0, out, dt
 
 
